@@ -11,5 +11,6 @@ func remarshal(in any, out any) bool {
 	return json.Unmarshal(b, out) == nil
 }
 
-// C03Child is replaced by the real implementation in c03.go once it exists.
+
+// C03Child is set by c03.go (child-process entry point).
 var C03Child = func(args []string) {}
